@@ -56,7 +56,9 @@ def run(ctx):
         segs = [[('W', a), ('R', None), ('S', None), ('W', None)] for a in range(0, ctx.pick(70, 140), stride)]
         segs += [[('R', None), ('W', a), ('S', None), ('W', None)] for a in range(0, ctx.pick(90, 260), stride + 1)]
         segs += [[('W', a), ('R', None), ('S', 2), ('W', 3), ('S', None), ('W', None)] for a in range(0, 40, 3)]
-        n = writercheck.explore(ctx, wm, cfg, r_ops, set(), ('m1', 'm2'), bound=ctx.pick(1, 2),
+        # every other configuration has a series whose file does not exist yet (create + tag registration on the way)
+        pre = ('m1', 'm2') if (si + limits.index(lim)) % 2 else ('m1',)
+        n = writercheck.explore(ctx, wm, cfg, r_ops, set(), pre, bound=ctx.pick(1, 2),
                                 nrandom=ctx.pick(10, 150), limit=ctx.pick(40, 800), sink=col, segments=segs)
         ctx.evaluations += n
   verdicts = writersys.judge(ctx, col.traces, 'C04 traces')
